@@ -54,7 +54,7 @@ Ats      == {"start", "hs", "late"}
 DiscAts  == <<"none", "none", "start", "hs", "hs", "mid", "mid", "late", "late">>
 
 NoScn   == [dir |-> "", lpv |-> 0, script |-> <<>>, rclose |-> FALSE,
-            plan |-> [s1 |-> <<>>, s2 |-> <<>>], invs |-> <<>>, disc |-> FALSE, net |-> "", loop |-> FALSE]
+            plan |-> [s1 |-> <<>>, s2 |-> <<>>], invs |-> <<>>, disc |-> FALSE, net |-> "", loop |-> FALSE, sib |-> FALSE]
 NoSteer == [feed |-> "", sendAt |-> [s1 |-> "", s2 |-> ""], invAt |-> "", discAt |-> "",
             hold |-> FALSE, stallRead |-> 0]
 
@@ -90,13 +90,16 @@ ChooseConn ==
   /\ stage = "tail" /\ tailLeft = 0
   /\ \E d \in {"in", "out"}, li \in 1..Len(LPVs), rc \in BOOLEAN, pi \in 1..Len(Plans), ii \in 1..Len(InvPlans) :
         scn' = [dir |-> d, lpv |-> LPVs[li], script |-> script, rclose |-> rc,
-                plan |-> Plans[pi], invs |-> InvPlans[ii], disc |-> FALSE, net |-> "", loop |-> FALSE]
+                plan |-> Plans[pi], invs |-> InvPlans[ii], disc |-> FALSE, net |-> "", loop |-> FALSE, sib |-> FALSE]
   /\ stage' = "net"
   /\ UNCHANGED <<script, good, tailLeft, steer>>
 
 ChooseNet ==
   /\ stage = "net"
-  /\ \E ni \in 1..Len(Nets), l \in BOOLEAN : scn' = [scn EXCEPT !.net = Nets[ni], !.loop = l]
+  \* sib: a self nonce is the one a sibling outbound peer is writing right now
+  /\ \E ni \in 1..Len(Nets), l \in BOOLEAN, sb \in BOOLEAN :
+        scn' = [scn EXCEPT !.net = Nets[ni], !.loop = l,
+                           !.sib = sb /\ (\E j \in 1..Len(script) : script[j].self)]
   /\ stage' = "steer1"
   /\ UNCHANGED <<script, good, tailLeft, steer>>
 
@@ -127,7 +130,7 @@ ChooseStarts ==
 HS(pv) == <<Ver(pv), M("verack")>>
 Scn(d, lpv, scr, rc, p1, p2, iv) ==
   [dir |-> d, lpv |-> lpv, script |-> scr, rclose |-> rc, plan |-> [s1 |-> p1, s2 |-> p2], invs |-> iv, disc |-> FALSE,
-   net |-> "sim", loop |-> FALSE]
+   net |-> "sim", loop |-> FALSE, sib |-> FALSE]
 St(f, a1, a2, ai, da, h, sr) ==
   [feed |-> f, sendAt |-> [s1 |-> a1, s2 |-> a2], invAt |-> ai, discAt |-> da, hold |-> h, stallRead |-> sr]
 
@@ -135,6 +138,14 @@ OnNet(c, n, l) == <<[c[1] EXCEPT !.net = n, !.loop = l], c[2]>>
 \* wrong-network (or malformed) message after a completed handshake, then a valid
 \* probe ping: refused everywhere except on regtest from localhost
 Probe(d, k) == <<Scn(d, 70016, HS(70016) \o <<M(k), M("ping")>>, FALSE, <<1>>, <<>>, <<>>), St("lockstep", "hs", "hs", "hs", "none", FALSE, 0)>>
+\* duplicated handshake messages after the handshake, then a valid probe ping:
+\* the peer must be gone before the probe
+Dup(d, k) == <<Scn(d, 70016, HS(70016) \o <<M(k), M("ping")>>, FALSE, <<1>>, <<>>, <<>>), St("lockstep", "hs", "hs", "hs", "none", FALSE, 0)>>
+\* a node dialling itself while the sibling's version write is still in flight
+Sib(d, p1) == <<[Scn(d, 70016, <<R("ver", 70016, TRUE), M("verack"), M("ping")>>, FALSE, p1, <<>>, <<>>) EXCEPT !.sib = TRUE],
+                St("lockstep", "hs", "hs", "hs", "none", FALSE, 0)>>
+MoreCore == << Dup("in", "verack"), Dup("out", "verack"), Dup("in", "ver"), Dup("out", "sendaddrv2"),
+               Sib("in", <<1>>), Sib("out", <<>>), Sib("in", <<>>) >>
 NetCore == << OnNet(Probe("in", "wrongmagic"), "main", TRUE),     OnNet(Probe("out", "wrongmagic"), "main", FALSE),
               OnNet(Probe("in", "wrongmagic"), "test3", TRUE),    OnNet(Probe("out", "wrongmagic"), "test3", FALSE),
               OnNet(Probe("out", "wrongmagic"), "nil", TRUE),     OnNet(Probe("in", "wrongmagic"), "nil", FALSE),
@@ -189,7 +200,8 @@ Core == <<
 
 PickCore ==
   /\ stage = "core"
-  /\ \E c \in 1..Len(Core \o NetCore) : scn' = (Core \o NetCore)[c][1] /\ steer' = (Core \o NetCore)[c][2]
+  /\ \E c \in 1..Len(Core \o NetCore \o MoreCore) :
+        scn' = (Core \o NetCore \o MoreCore)[c][1] /\ steer' = (Core \o NetCore \o MoreCore)[c][2]
   /\ stage' = "done"
   /\ UNCHANGED <<script, good, tailLeft>>
 
